@@ -823,6 +823,82 @@ def netRead (f : NetFmt) (text : Str) : Except String (List REdge) := do
   let body := recs.drop f.header
   body.mapM (netReadRow f)
 
+/-! ### (e') a csv file with a WKT column: `TrackReader.readFromWkt`
+
+tracklib has no writer for this layout: the file is the one a user writes with `sep.join([uid, tid, track.toWKT()])`, one
+track per line, the WKT text in double quotes or bare. -/
+
+/-- `csv.reader(delimiter=sep, doublequote=dq)` (non-strict): as `csvFields`, with the `doublequote` flag — when it is off, a
+quote met right after the closing quote of a quoted field is kept and the field goes on unquoted -/
+def csvFieldsQ (dq : Bool) (sep : Char) : Str → CsvSt → Str → List Str → List Str
+  | [], st, cur, acc =>
+    match st with
+    | CsvSt.start => if acc.isEmpty then [] else (acc ++ [cur])
+    | _ => acc ++ [cur]
+  | c :: cs, st, cur, acc =>
+    match st with
+    | CsvSt.start =>
+      if c = '"' then csvFieldsQ dq sep cs CsvSt.inQuoted cur acc
+      else if c = sep then csvFieldsQ dq sep cs CsvSt.start [] (acc ++ [cur])
+      else csvFieldsQ dq sep cs CsvSt.inField (cur ++ [c]) acc
+    | CsvSt.inField =>
+      if c = sep then csvFieldsQ dq sep cs CsvSt.start [] (acc ++ [cur])
+      else csvFieldsQ dq sep cs CsvSt.inField (cur ++ [c]) acc
+    | CsvSt.inQuoted =>
+      if c = '"' then csvFieldsQ dq sep cs CsvSt.quoteInQuoted cur acc
+      else csvFieldsQ dq sep cs CsvSt.inQuoted (cur ++ [c]) acc
+    | CsvSt.quoteInQuoted =>
+      if c = '"' ∧ dq = true then csvFieldsQ dq sep cs CsvSt.inQuoted (cur ++ [c]) acc
+      else if c = sep then csvFieldsQ dq sep cs CsvSt.start [] (acc ++ [cur])
+      else csvFieldsQ dq sep cs CsvSt.inField (cur ++ [c]) acc
+
+def csvRecordQ (dq : Bool) (sep : Char) (line : Str) : List Str := csvFieldsQ dq sep line CsvSt.start [] []
+
+/-- the arguments of `readFromWkt(path, id_geom, id_user, id_track, separator, h, doublequote=…)` (−1: column not read) -/
+structure WktFmt where
+  idWkt : Nat
+  idUser : Int
+  idTrack : Int
+  sep : Char
+  header : Nat
+  dq : Bool
+
+/-- a track as `readFromWkt` returns it: `uid` / `tid` when their column is read, the vertices -/
+structure WTrack where
+  uid : Option Str
+  tid : Option Str
+  pts : List (Dec × Dec × Dec)
+  deriving DecidableEq, Repr
+
+/-- one record of `__readFromWkt`: `parseWkt(fields[id_wkt])`, then `fields[id_user]`, `fields[id_track]` -/
+def wktReadRow (f : WktFmt) (fields : List Str) : Except String WTrack := do
+  let w ← nth fields f.idWkt
+  let pts ← parseWkt w
+  let uid ← if f.idUser ≥ 0 then (do let u ← nth fields f.idUser.toNat; pure (some u)) else pure none
+  let tid ← if f.idTrack ≥ 0 then (do let t ← nth fields f.idTrack.toNat; pure (some t)) else pure none
+  pure ⟨uid, tid, pts⟩
+
+/-- `TrackReader.readFromWkt` on a file text: `next(reader)` `header` times (StopIteration when the file is shorter), then one
+track per non-empty record -/
+def readWktFile (f : WktFmt) (text : Str) : Except String (List WTrack) := do
+  let recs := (fileLines text).map (fun l => csvRecordQ f.dq f.sep (l.filter (fun c => c ≠ '\n' ∧ c ≠ '\r')))
+  if recs.length < f.header then throw "StopIteration" else
+  ((recs.drop f.header).filter (fun r => !r.isEmpty)).mapM (wktReadRow f)
+
+/-- the three columns of a line in file order: the WKT text at position `pw`, the user id at `pu`, the track id at `pt` -/
+def wktCols (pw pu pt : Nat) (uid tid w : Str) : List Str :=
+  (List.range 3).map (fun j => if j = pw then w else if j = pu then uid else if j = pt then tid else [])
+
+/-- a line of the file: `sep.join(columns)`, the WKT text of `track.toWKT()` in double quotes (`quoted`) or bare -/
+def wktFileLine (sep : Char) (quoted : Bool) (pw pu pt : Nat) (d : Nat) (t : Str × Str × List Pt) : Str :=
+  joinChar sep (wktCols pw pu pt t.1 t.2.1 (if quoted then ['"'] ++ toWKT d t.2.2 ++ ['"'] else toWKT d t.2.2))
+
+/-- the file: an optional header line naming the columns, then one line per track (`blank`: an empty line after each) -/
+def wktFile (sep : Char) (hdr quoted blank : Bool) (pw pu pt : Nat) (d : Nat) (tracks : List (Str × Str × List Pt)) : Str :=
+  let h := if hdr then [joinChar sep (wktCols pw pu pt "user".toList "track".toList "wkt".toList)] else []
+  let ls := (tracks.map (fun t => [wktFileLine sep quoted pw pu pt d t] ++ (if blank then [[]] else []))).flatten
+  ((h ++ ls).map (· ++ ['\n'])).flatten
+
 /-! ### (f) GPX -/
 
 structure GRow where
